@@ -245,7 +245,7 @@ def _leaf_values(ns, case):
     return out
 
 
-def observe(case, scratch):
+def observe(case, scratch, full=True):
     from implutil import outcome_of, reset_simple_parsing_state
 
     reset_simple_parsing_state()
@@ -301,6 +301,11 @@ def observe(case, scratch):
         o["format_help_same"] = None
     o["registered"] = groups
     o["action_dests"] = registered_dests
+    o["full"] = bool(full)
+    if not full:
+        # light observation (most hash seeds): the help text, what was registered and the enumeration orders only
+        o["hidden"], o["api_help"], o["after"], o["fresh"], o["fresh_format_help_sections"] = [], None, None, None, -1
+        return o
     # 4. cmd=False / init=False fields: never parseable
     hidden = []
     rq = outcome_of(lambda: _required_argv(case, scratch)) if done else ["ok", []]
@@ -397,7 +402,8 @@ def _required_argv(case, scratch):
 def main():
     fin, fout, scratch = sys.argv[1:4]
     cases = json.load(open(fin))
-    out = [observe(c, scratch) for c in cases]
+    full = os.environ.get("C16_FULL", "1") == "1"
+    out = [observe(c, scratch, full) for c in cases]
     json.dump(out, open(fout, "w"))
     try:
         os.remove(os.path.join(scratch, f"c16_{os.getpid()}.json"))
